@@ -500,6 +500,8 @@ impl<'a> Runner<'a> {
                     }
                 };
                 let ok = got.len() == list.len()
+                    && self.sets[s].len() == list.len()
+                    && self.sets[s].is_empty() == list.is_empty()
                     && got.iter().zip(&list).all(|(o, k)| o.matches(&self.case.reference.recs[*k]));
                 if !ok {
                     self.dev(
